@@ -71,7 +71,7 @@ func valueSet(tier string) []nv {
 // chainValueSet is the reduced alphabet for the amounts of the 2nd and 3rd op of a chain (a subset of valueSet).
 func chainValueSet(tier string) []nv {
 	if tier == "thorough" {
-		return []nv{{0, "0"}, {1, "1"}, {e18 - 1, "10^18-1"}, {e18, "10^18"}, {e18 + 1, "10^18+1"}, {maxU - e18 + 1, "2^64-10^18"}, {maxU, "2^64-1"}}
+		return []nv{{0, "0"}, {1, "1"}, {e18 - 1, "10^18-1"}, {e18, "10^18"}, {e18 + 1, "10^18+1"}, {maxU, "2^64-1"}}
 	}
 	return []nv{{0, "0"}, {1, "1"}, {e18 - 1, "10^18-1"}, {e18, "10^18"}, {maxU, "2^64-1"}}
 }
@@ -159,7 +159,7 @@ func errClass(err error) uint8 {
 
 const (
 	cNone = iota
-	cAmountNC
+	cNC   // some operand (amount or a side) is not canonical; which one is told by the success-noncanonical-* keys
 	cFromNC
 	cToNC
 	cReceiverNC
@@ -175,7 +175,7 @@ const (
 	nCause
 )
 
-var causeName = [nCause]string{"", "amount-supp>=1e18", "from-supp>=1e18", "to-supp>=1e18", "receiver-supp>=1e18",
+var causeName = [nCause]string{"", "supp>=1e18", "from-supp>=1e18", "to-supp>=1e18", "receiver-supp>=1e18",
 	"canonical/overflow-by-carry", "canonical/overflow-by-currency", "canonical/insufficient-by-borrow",
 	"canonical/insufficient-by-currency", "canonical/possible", "multi-carry", "carry-at-max-currency", "single-carry", "no-carry"}
 
@@ -369,12 +369,8 @@ func (w *worker) allInV(ms ...M) bool {
 // transferCause names the structural situation of Transfer(a, f, t).
 func transferCause(a, f, t M, sufficient, fits bool) uint8 {
 	switch {
-	case !canon(a):
-		return cAmountNC
-	case !canon(f):
-		return cFromNC
-	case !canon(t):
-		return cToNC
+	case !canon(a) || !canon(f) || !canon(t):
+		return cNC
 	case !fits:
 		if a.Currency > maxU-t.Currency {
 			return cOverflowCur
@@ -439,7 +435,9 @@ func (w *worker) checkSupply(phase uint8, a, m, other M, countDistinct bool) (M,
 	exp := w.expX.Add(vm, va)
 	fits := exp.Cmp(bigLim) < 0
 	possible := cA && cM && fits
-	nontrivial := a.Currency <= maxU-m.Currency
+	// non-trivial: the currency parts alone do not reject the case, and it either succeeded or failed with canonical
+	// operands, i.e. the outcome was decided in the supplementary (carry / rollback) phase of the op
+	nontrivial := a.Currency <= maxU-m.Currency && (err == nil || (cA && cM))
 	if nontrivial && countDistinct {
 		if phase == 1 {
 			w.st.nontriv[opSupply]++
@@ -449,10 +447,8 @@ func (w *worker) checkSupply(phase uint8, a, m, other M, countDistinct bool) (M,
 	}
 	cause := func() uint8 {
 		switch {
-		case !cA:
-			return cAmountNC
-		case !cM:
-			return cReceiverNC
+		case !cA || !cM:
+			return cNC
 		case !fits:
 			if a.Currency > maxU-m.Currency {
 				return cOverflowCur
@@ -538,7 +534,8 @@ func (w *worker) checkTransfer(phase uint8, a, f, t M) (M, M, bool) {
 	sufficient := expF.Sign() >= 0
 	fits := expT.Cmp(bigLim) < 0
 	possible := cA && cF && cT && sufficient && fits
-	nontrivial := a.Currency <= f.Currency && a.Currency <= maxU-t.Currency
+	// non-trivial: as for Supply (carry / borrow / rollback phase decided the outcome)
+	nontrivial := a.Currency <= f.Currency && a.Currency <= maxU-t.Currency && (err == nil || (cA && cF && cT))
 	if nontrivial {
 		if phase == 1 {
 			w.st.nontriv[opTransfer]++
@@ -1072,7 +1069,7 @@ func main() {
 			rep.Set(lo+"_distinct_nontrivial_chain_only", int(total.chainNT[op]))
 		}
 		if op == opSupply || op == opTransfer {
-			rep.Set(lo+"_failure_after_first_guard", int(total.failLate[op]))
+			rep.Set(lo+"_failure_in_supplementary_phase", int(total.failLate[op]))
 		}
 	}
 	rep.Set("evaluations", int(evals))
@@ -1101,9 +1098,10 @@ func main() {
 		"{Transfer x->y, Transfer y->x (each with its Drain twin), x.Supply, y.Supply} is applied with every amount of the reduced alphabet (chain_amount_alphabet)^2; "+
 		"new pair states (not reached before) are expanded once more the same way, which gives every op sequence of length 3 whose first op comes from the product; "+
 		"successors of the third op are checked, not stored. Every evaluation calls the real, un-modelled op on copies and compares with math/big arithmetic over cur*10^18+supp. "+
-		"evaluations = number of calls of an op under test. distinct_nontrivial counts DISTINCT (op, operands) cases that get past the op's first (currency-part) guard, decided on the inputs: "+
-		"Transfer(a,from,to): a.cur <= from.cur and a.cur + to.cur <= 2^64-1; Supply(m,a): m.cur + a.cur <= 2^64-1; New(c,s): s >= 10^18 (carry path). Such a case either succeeds or fails only after "+
-		"state was already mutated (rollback path). Product cases are distinct by construction (product of a duplicate-free set). Drain evaluations are never counted (same operands as the Transfer twin). "+
+		"evaluations = number of calls of an op under test. distinct_nontrivial counts DISTINCT (op, operands) cases whose outcome is decided after the op's first (currency-part) guard: "+
+		"Transfer(a,from,to): a.cur <= from.cur and a.cur + to.cur <= 2^64-1; Supply(m,a): m.cur + a.cur <= 2^64-1; and in both: the op succeeded, or it failed although every operand is canonical "+
+		"(then the failure was decided in the supplementary phase, after state had been mutated: rollback path; failures with a non-canonical operand are conservatively not counted); "+
+		"New(c,s): s >= 10^18 (carry path). Product cases are distinct by construction (product of a duplicate-free set). Drain evaluations are never counted (same operands as the Transfer twin). "+
 		"A chain case is counted only if some operand field lies outside V (otherwise the product already counted it); chain Transfer cases are distinct because pair states are de-duplicated "+
 		"across both levels and stored unordered, the two directions are separate ops and the mirrored direction is skipped when x == y; chain Supply cases are counted only for the first pair state "+
 		"in which the receiver value occurs (global set of receiver values).", len(r.V)))
